@@ -43,13 +43,18 @@ func (rs *peerSwitchSender) _switch(
 	oReqs map[address.Address]Request,
 ) error {
 	if r.Command == CommandWrite {
-		for nodeKey, frame := range r.Frame.SplitByLeaseholder() {
-			addr, ok := rs.addresses[nodeKey]
-			if !ok {
+		// Every peer receives every write, with an empty frame if it has no series in it,
+		// so that each of them produces the acknowledgement the synchronizer counts on.
+		split := r.Frame.SplitByLeaseholder()
+		for nodeKey := range split {
+			if _, ok := rs.addresses[nodeKey]; !ok {
 				rs.logger.DPanic("missing address for node", zap.Uint32("node", uint32(nodeKey)))
 			}
-			r.Frame = frame
-			oReqs[addr] = r
+		}
+		for nodeKey, addr := range rs.addresses {
+			pr := r
+			pr.Frame = split[nodeKey]
+			oReqs[addr] = pr
 		}
 	} else {
 		for _, addr := range rs.addresses {
